@@ -157,6 +157,17 @@ def run(db, chk) -> None:
             if ok_same:
                 S = sides["host"][0][2]
                 srcs = []
+                # a Python set that received the ids (`ids = set(); ids.update(series)`): the collections it holds
+                members = [S[1]] if (S[0] == "set" and len(S) == 2 and isinstance(S[1], tuple) and S[1] and S[1][0] == "valuesof") else \
+                    (list(S[1]) if S[0] == "setunion" and all(isinstance(x_, tuple) and x_ and x_[0] == "valuesof" for x_ in S[1]) else None)
+                if members is not None and all(isinstance(v_[2], tuple) and len(v_[2]) == 3 for v_ in members):
+                    foreign = [v_ for v_ in members if v_[2][0] != TRr]
+                    if foreign:
+                        chk.ob(rule, f"{tag} correlation ids are collected from THIS rank's rows only", False, where, found=[T.show(v_[2][0]) for v_ in members], accepted=T.show(TRr),
+                               why="ids carried over from a rank processed earlier (a set created in front of the rank loop and only ever updated) add pairs that are not launches on this rank")
+                        continue
+                    if len(members) == 1:
+                        S = members[0]
                 if S[0] == "valuesof":
                     sctx = S[2]
                     if isinstance(sctx, tuple) and sctx and sctx[0] == ("concat",) or (isinstance(sctx[0], tuple) and sctx[0] and sctx[0][0] == "concat"):
